@@ -111,8 +111,13 @@ class Backend:
       fd = fedjax.SQLiteFederatedData.new(self.path)
       self.opened.append(fd)
       return fd
-    return fedjax.InMemoryFederatedData(
+    mem = fedjax.InMemoryFederatedData(
         {i: {k: v.copy() for k, v in e.items()} for i, e in self.spec})
+    if self.kind == 'subset':
+      # the generic subset wrapper over all ids: same mapping, its own
+      # shuffled_clients implementation
+      return fedjax.SubsetFederatedData(mem, [i for i, _ in self.spec])
+    return mem
 
   def __exit__(self, *exc):
     for fd in self.opened:
@@ -491,9 +496,9 @@ def within_strategy(draw, tier):
 def shuffled_strategy(draw, tier):
   clients = draw(clients_strategy(12 if tier == 'quick' else 20))
   n = len(clients)
-  return {'backend': draw(st.sampled_from(['memory', 'memory', 'sqlite'])),
+  return {'backend': draw(st.sampled_from(['memory', 'memory', 'sqlite', 'subset', 'subset'])),
           'clients': clients, 'seed': 0,
-          'stream_seed': draw(seed_strategy()),
+          'stream_seed': draw(st.one_of(st.sampled_from([0, 0, 1]), seed_strategy())),
           'buffer': draw(st.one_of(st.integers(2, n + 3), st.integers(1, n + 3),
                                    st.sampled_from([1, 2, n - 1, n, n + 1]))),
           'cohort': draw(cohort_strategy(n)),
